@@ -5,7 +5,7 @@
                        n sweeps; obs = the (slot, dtype) pairs of EVERY array in the returned structure (None = a dtype
                        outside the model) against the dtypes computed by the skeleton. *)
 From Coq Require Import List Bool Arith String.
-From TLV Require Import Model.Dtype Corr.Common.
+From TLV Require Import Model.Dtype Model.DtypeHist Corr.Common.
 Import ListNotations.
 
 Inductive case :=
@@ -16,7 +16,12 @@ Inductive case :=
 | CEpV (id : nat) (mc : bool) (c : cfg) (t m : dt) (n : nat) (obs : list (string * option dt))
 | CExt (id : nat) (level : nat) (p : prog)
 | CExtX (id : nat) (level : nat) (p : prog) (want : list nat)
-| CTr (id : nat) (t m : dt) (p : prog) (obs : list (option dt)).
+| CTr (id : nat) (t m : dt) (p : prog) (obs : list (option dt))
+| CHist (id : nat) (G : list nat) (p : prog) (expect : bool).
+(* CHist: a dtype program extracted from the source of a function that refers to PERSISTENT state (module-level containers / singletons,
+   names declared `global`): G = the variables standing for that state.  The program must pass the history-freedom check of
+   Model/DtypeHist.v (no read of a persistent variable before this call has overwritten it; Theorem C18_history_independent);
+   expect = false only for the harness's built-in canaries (a dtype-oblivious cache must be REJECTED) *)
 (* CTr: self-test of the source translator: a random straight-line function was executed by Python / NumPy / TensorLy with data
    dtype t and mask dtype m; obs = the dtypes of its returned arrays, in order; p = its translation.  Exact comparison. *)
 (* CExt: a dtype program extracted from the Python source of one function on this run; level 2: must pass the tolerant
@@ -48,6 +53,7 @@ Definition agree (c : case) : bool :=
       let model := map snd (out_dtypes (mkenv t m) p 0) in
       Nat.eqb (List.length model) (List.length obs) &&
       forallb (fun xo => match snd xo with Some d => dt_eqb (fst xo) d | None => false end) (combine model obs)
+  | CHist _ G p expect => Bool.eqb (hist_free G p) expect
   end.
-Definition ident (c : case) : nat := match c with CTab i _ _ _ | CDiv i _ _ _ | CAbs i _ _ | CEp i _ _ _ _ _ | CEpV i _ _ _ _ _ _ | CExt i _ _ | CExtX i _ _ _ | CTr i _ _ _ _ => i end.
+Definition ident (c : case) : nat := match c with CTab i _ _ _ | CDiv i _ _ _ | CAbs i _ _ | CEp i _ _ _ _ _ | CEpV i _ _ _ _ _ _ | CExt i _ _ | CExtX i _ _ _ | CTr i _ _ _ _ | CHist i _ _ _ => i end.
 Definition failing := failing_ids agree ident.
